@@ -460,6 +460,7 @@ Step(S, I, E) ==
                                 [] v.t = TInt -> StrV(I64Dec(v.n))
                                 [] v.t = TFloat -> WildV(TStr)
                                 [] v.t = TBool -> StrV(IF v.n[4] # 0 THEN BytesTrue ELSE BytesFalse)
+                                [] v.t \in {TEnum, TU8} -> StrV(I64Dec(v.n))          \* enum values are integers (3.4.2)
                                 [] OTHER -> StrV(<<>>)))
      [] op = "TYPE_CHECK" -> Need(S, 1, Un(S, I, BoolV(Top(S).t = a[1])))
      \* ---- closures
